@@ -840,6 +840,9 @@ func (u *Unit) assumeInvs(st *State, n int, ls *LoopSpec, scopePos token.Pos) {
 		v, _ := u.evalSpecBool(st, inv.E, u.specEnvLocal(st, scopePos, n), true)
 		st.assume(v)
 	}
+	if len(ls.Invs) > 0 {
+		u.cover(st, fmt.Sprintf("loop%d.inv-consistent", n), "loop invariants are satisfiable at the loop head")
+	}
 }
 
 // finishLoopBody filters the states coming out of a loop body.
@@ -1207,4 +1210,12 @@ func (u *Unit) ghostSpawn(st *State, x *ast.GoStmt) {
 		return
 	}
 	st.gvars["spawned"] = &Val{T: g.T, S: app("+", g.S, "1")}
+	// ghost(x).spawned := true for the first reference-typed argument of the go statement
+	if _, ok := u.eng.cs.GhostFields["spawned"]; ok && len(x.Call.Args) > 0 {
+		a := u.eval(st, x.Call.Args[0])
+		if kindOf(a.T) == kRef && a.S != "" {
+			h := u.heapGet(st, "G!spawned", SBool)
+			u.heapSet(st, "G!spawned", SBool, app("store", h, a.S, "true"))
+		}
+	}
 }
